@@ -1,4 +1,6 @@
 import Dia.NoPanic
+import Dia.DecTyped
+import Dia.Fuel
 /-! # C04 - The decoder is total: any bytes give Ok or Err, never a crash. Property theorems only.
 `decMsg` returns `.panic` at every operation that panics in Rust with overflow checks on (checked `u32`
 subtraction and addition, slice bounds); recursion is on an explicit fuel, so termination is by construction. -/
@@ -12,5 +14,29 @@ theorem C04_no_panic (cfg : Cfg) (dict : Lookup) (bs : Bytes) : decMsg cfg dict 
 theorem C04_no_panic_avp (cfg : Cfg) (dict : Lookup) (fuel depth : Nat) (c : Cur) :
     decAvp cfg dict fuel depth c ≠ .panic :=
   decAvp_ne_panic cfg dict fuel depth c
+
+/-- every message the decoder returns nests no deeper than the decoder's limit: the recursions that walk a returned
+value - display, the accessors, clone, drop, re-encoding - are bounded by that limit too (they are structural in the
+tree) -/
+theorem C04_depth (cfg : Cfg) (dict : Lookup) (bs : Bytes) (m : Msg) (h : decMsg cfg dict bs = .ok m) :
+    depthList m.avps ≤ cfg.limit :=
+  (decMsg_typed cfg dict bs m h).2.1
+
+/-- a frame nested deeper than the limit is refused with an error (never mis-parsed, never recursed into): the
+decoder's own recursion depth is bounded by the limit whatever the frame says -/
+theorem C04_too_deep_is_error (cfg : Cfg) (dict : Lookup) (bs : Bytes) (m : Msg)
+    (h : decMsg cfg dict bs = .ok m) : ¬ cfg.limit < depthList m.avps := by
+  have := C04_depth cfg dict bs m h
+  omega
+
+/-- the decoder's loops are bounded by the input: every successful AVP decode consumes at least the 8 octets of its
+header, so at most |bs|/8 AVPs are decoded (linear work), and the explicit fuel of the model - an artefact of writing
+the recursion structurally; the code has none - is never exhausted: `err fuel` is not a possible answer -/
+theorem C04_fuel (cfg : Cfg) (dict : Lookup) (bs : Bytes) : decMsg cfg dict bs ≠ .err .fuel :=
+  decMsg_ne_fuel cfg dict bs
+
+theorem C04_progress (cfg : Cfg) (dict : Lookup) (fuel depth : Nat) (c c' : Cur) (a : Avp)
+    (h : decAvp cfg dict fuel depth c = .ok (a, c')) : c'.rem + 8 ≤ c.rem :=
+  decAvp_rem cfg dict fuel depth c c' a h
 
 end Dia
